@@ -2,7 +2,7 @@
    Statements only; proofs are in Proofs/BTree*.v, the model in Model/BTreeM.v. *)
 From DV Require Import Base.Prelude Model.BTreeM Proofs.BTreeBase Proofs.BTreeWf Proofs.BTreeInsert
   Proofs.BTreeLookup Proofs.BTreeDelete Proofs.BTreeTop
-  Model.BTreeStoreM Proofs.BTreeStore Proofs.BTreeIsolation.
+  Model.BTreeStoreM Proofs.BTreeStore Proofs.BTreeIsolation Proofs.BTreeCursor.
 
 (* _Node.search_in_node (shortcut + binary search) on a key-sorted node = linear search *)
 Theorem search_spec : forall k es, ksorted es -> search k es = Ok (lsearch k es).
@@ -74,6 +74,59 @@ Theorem frozen_rejects : forall b e io k exact,
   insert_element b e io = Lib eImmutable /\ delete_btree b k exact = Lib eImmutable.
 Proof. exact frozen_rejects_proof. Qed.
 Print Assumptions frozen_rejects.
+
+(* Cursors.  `anchor_of c` is the position a reference sorted dictionary would keep for the
+   cursor (left / right boundary, just before / just after a key, read off the parking key and
+   the direction flags); `pos_ok a l bef aft` says that (bef, aft) is the split of the sorted
+   element list l at that anchor (unique: cursor_position_unique).  `cinv` is the representation
+   invariant of the concrete cursor (node, index, parents stack, recurse / increasing flags).
+   next() returns the first element behind the anchor and moves the anchor just after it (or to
+   the right boundary), prev() symmetrically, seek() sets the anchor; parking - which is what every
+   mutation of the tree does to its registered cursors - keeps the anchor and makes the cursor
+   valid for WHATEVER tree results, so a cursor kept open across mutations resumes at its key. *)
+Theorem cursor_spec_seek : forall t root key before,
+  wf t root ->
+  exists c', cursor_seek root key before = Ok c' /\ cinv t root c' /\ c_parked c' = false /\
+             anchor_of c' = if before then AB key else AA key.
+Proof. exact cursor_seek_proof. Qed.
+Print Assumptions cursor_spec_seek.
+
+Theorem cursor_spec_next : forall t root c,
+  wf t root -> cinv t root c ->
+  exists bef aft c',
+    pos_ok (anchor_of c) (elements root) bef aft /\
+    cursor_next root c = Ok (c', hd_error aft) /\
+    cinv t root c' /\ c_parked c' = false /\
+    anchor_of c' = match aft with x :: _ => AA (fst x) | [] => AR end.
+Proof. exact cursor_next_proof. Qed.
+Print Assumptions cursor_spec_next.
+
+Theorem cursor_spec_prev : forall t root c,
+  wf t root -> cinv t root c ->
+  exists bef aft c',
+    pos_ok (anchor_of c) (elements root) bef aft /\
+    cursor_prev root c = Ok (c', hd_error (rev bef)) /\
+    cinv t root c' /\ c_parked c' = false /\
+    anchor_of c' = match rev bef with x :: _ => AB (fst x) | [] => AL end.
+Proof. exact cursor_prev_proof. Qed.
+Print Assumptions cursor_spec_prev.
+
+Theorem cursor_spec_park : forall t root c,
+  cinv t root c -> anchor_of (cursor_park c) = anchor_of c /\ forall root', cinv t root' (cursor_park c).
+Proof. exact cursor_park_proof. Qed.
+Print Assumptions cursor_spec_park.
+
+Theorem cursor_spec_boundaries : forall t root c,
+  cinv t root (cursor_seek_first c) /\ anchor_of (cursor_seek_first c) = AL /\
+  cinv t root (cursor_seek_last c) /\ anchor_of (cursor_seek_last c) = AR /\
+  cinv t root new_cursor /\ anchor_of new_cursor = AL.
+Proof. exact cursor_boundary_proof. Qed.
+Print Assumptions cursor_spec_boundaries.
+
+Theorem cursor_position_unique : forall a l bef aft bef' aft',
+  ksorted l -> pos_ok a l bef aft -> pos_ok a l bef' aft' -> bef = bef' /\ aft = aft'.
+Proof. exact pos_ok_unique. Qed.
+Print Assumptions cursor_position_unique.
 
 (* Copy-on-write isolation, on the store-level model (nodes with ids and creator tags, in-place
    writes, maybe_cow / maybe_cow_child / clone allocate).  After ANY history of operations
